@@ -22,6 +22,7 @@ def top(byte, n=4, tail=0x11):
 def run(check, ctx):
     repo = ctx.repo
     fixed_width_rows(check, repo)
+    roundtrip_rows(check, repo)
     pem_padding_rows(check, repo)
     passphrase_encoding_siblings(check, repo)
     b64 = {"binascii.b2a_base64": lambda i, a, kw, st, node: b"<B64>\n"}
@@ -226,3 +227,167 @@ def passphrase_encoding_siblings(check, repo):
              "%d conversions in RSA/DSA/ECC export_key / import_key and PKCS8 wrap / unwrap, all %s(passphrase%s)" % (
                  len(sites), major[0], "".join(", " + e for e in major[1])),
              expected="a key exported under a text passphrase is opened by the same text: one encoding (Latin-1, py3compat.tobytes default) on every path")
+
+
+def roundtrip_rows(check, repo):
+    """import_key(export_key(k)) == k for RSA and DSA keys in every unencrypted format, the real writers, readers, DER
+    and PEM code interpreted end to end over the native Integer back-end (base64 by the checker's binascii).  The keys
+    are chosen at the encoding boundaries: components whose top byte is 00-padded / has the sign bit set / needs a
+    length in long form, a CRT coefficient much shorter than the modulus, e = 3 and e = 2^32 + 1.  A second import of
+    the same bytes with one byte appended must fail (no trailing data)."""
+    from .int_table import Backend
+    from ..absval import AClass, AObj
+    from ..par import pmap
+    be = Backend(repo, "native")
+    rmod, dmod = repo.module(RSA), repo.module(DSA)
+
+    def interp():
+        it = be.interp()
+        for k in ("DerSequence", "DerInteger", "DerObject", "BytesIO_EOF", "DerOctetString", "DerObjectId", "DerNull", "DerBitString", "DerSetOf", "DerBoolean"):
+            it.extra_models["Crypto.Util.asn1." + k] = False
+        it.inject.update({"Integer": AClass(be.mod, be.cls)})
+        it.for_limit = 600
+        return it
+
+    def rsa_key(it, st, comps):
+        me = it.new_obj(st, rmod, repo.cls(rmod, "RsaKey"), havoc=False)
+        for k, v in comps.items():
+            st.heap[me.ident]["_" + k] = be.make(it, st, v)
+        return me
+
+    def dsa_key(it, st, comps):
+        me = it.new_obj(st, dmod, repo.cls(dmod, "DsaKey"), havoc=False)
+        st.heap[me.ident]["_key"] = dict((k, be.make(it, st, v)) for k, v in comps.items())
+        return me
+
+    def comps_of(st, obj, kind):
+        h = st.heap.get(obj.ident, {})
+        if kind == "rsa":
+            return dict((k[1:], be.value(st, v)) for k, v in h.items() if k in ("_n", "_e", "_d", "_p", "_q", "_u") and isinstance(v, AObj))
+        kd = h.get("_key")
+        return dict((k, be.value(st, v) if isinstance(v, AObj) else v) for k, v in kd.items()) if isinstance(kd, dict) else {}
+
+    def job(j):
+        kind, comps, kw, public = j
+        mod = rmod if kind == "rsa" else dmod
+        it = interp()
+        st = State()
+        c = dict(comps)
+        if public:
+            for k in ("d", "p", "q", "u", "dp", "dq") if kind == "rsa" else ("x",):
+                c.pop(k, None)
+        me = (rsa_key if kind == "rsa" else dsa_key)(it, st, c)
+        res = it.run(mod, repo.func(mod, ("RsaKey" if kind == "rsa" else "DsaKey") + ".export_key"), dict(kw), self_obj=me, state=st, bind_defaults=True)
+        rets = res.returns()
+        if len(rets) != 1 or res.raises() or not isinstance(rets[0].value, (bytes, str)):
+            return "export: %d exits, raises %s" % (len(rets), res.raise_classes())
+        blob = rets[0].value
+        after = comps_of(rets[0].state, me, kind)
+        changed = [k for k in sorted(after) if k in c and after[k] != c[k]]
+        if changed:
+            return "export_key changed the key object itself: %s" % ", ".join("%s is now %s" % (k, after[k]) for k in changed[:3])
+        out = []
+        for variant, data in (("as written", blob), ("one byte appended", (blob + (b"\x00" if isinstance(blob, bytes) else "A")) if kw.get("format") == "DER" else None)):
+            if data is None:
+                continue
+            it2 = interp()
+            st2 = State()
+            res2 = it2.run(mod, repo.func(mod, "import_key"), {"extern_key": data}, state=st2, bind_defaults=True)
+            r2 = res2.returns()
+            if variant == "as written":
+                if len(r2) != 1 or not isinstance(r2[0].value, AObj):
+                    return "import of the exported key: %d exits, raises %s" % (len(r2), res2.raise_classes())
+                got = comps_of(r2[0].state, r2[0].value, kind)
+                want = dict((k, v) for k, v in c.items() if k not in ("dp", "dq"))
+                if got != want:
+                    diff = [k for k in sorted(set(got) | set(want)) if got.get(k) != want.get(k)]
+                    return "components %s differ after the round trip (%s)" % (diff, ", ".join("%s: %s instead of %s" % (k, got.get(k), want.get(k)) for k in diff[:2]))
+            else:
+                if r2 or not res2.rejected():
+                    return "the encoding followed by one more byte is accepted"
+        return None
+
+    def top(tb, n, fill=0x11):
+        return int.from_bytes(bytes([tb]) + bytes([fill]) * (n - 1), "big")
+    jobs = []
+    # RSA: real toy keys (so that the consistency of import does not interfere: import_key does not check consistency)
+    P1, Q1 = (1 << 31) - 1, (1 << 61) - 1
+    P2, Q2 = 2 ** 127 - 1, 2 ** 89 - 1
+    for (pp, qq, e) in ((P1, Q1, 65537), (Q1, P1, 3), (P2, Q2, (1 << 32) + 1), (Q2, P2, 65537), (61, 53, 17)):
+        n_ = pp * qq
+        import math as _m
+        while _m.gcd(e, (pp - 1) * (qq - 1)) != 1:
+            e += 2
+        d_ = pow(e, -1, (pp - 1) * (qq - 1))
+        comps = {"n": n_, "e": e, "d": d_, "p": pp, "q": qq, "u": pow(pp, -1, qq), "dp": d_ % (pp - 1), "dq": d_ % (qq - 1)}
+        for kw in ({"format": "DER", "pkcs": 1}, {"format": "DER", "pkcs": 8}, {"format": "PEM", "pkcs": 1}, {"format": "PEM", "pkcs": 8}):
+            jobs.append(("rsa", comps, kw, False))
+        for kw in ({"format": "DER"}, {"format": "PEM"}, {"format": "OpenSSH"}):
+            jobs.append(("rsa", comps, kw, True))
+    import math as _m
+
+    def is_prime(n):
+        if n < 2:
+            return False
+        for sp in (2, 3, 5, 7, 11, 13, 17, 19, 23, 29, 31, 37):
+            if n % sp == 0:
+                return n == sp
+        d_, r_ = n - 1, 0
+        while d_ % 2 == 0:
+            d_ //= 2
+            r_ += 1
+        for a in (2, 3, 5, 7, 11, 13, 17, 19, 23, 29, 31, 37, 41, 43, 47, 53):
+            x = pow(a, d_, n)
+            if x in (1, n - 1):
+                continue
+            for _ in range(r_ - 1):
+                x = x * x % n
+                if x == n - 1:
+                    break
+            else:
+                return False
+        return True
+    # public RSA keys at the sign-byte / length-form boundaries: n odd, e an odd prime that does not divide n
+    for tb in (0x00 + 1, 0x7F, 0x80, 0xFF):
+        for nlen in (16, 127, 128, 129, 256):
+            n_ = top(tb, nlen) | 1
+            e_ = top(tb, 3) | 1
+            while not is_prime(e_) or _m.gcd(e_, n_) != 1:
+                e_ += 2
+            comps = {"n": n_, "e": e_}
+            for kw in ({"format": "DER"}, {"format": "OpenSSH"}):
+                jobs.append(("rsa", comps, kw, True))
+
+    # DSA: valid domain parameters whose encodings sit at the boundaries (found by search in the checker)
+    def dsa_params(tq, qlen, tp, plen):
+        q_ = top(tq, qlen) | 1
+        while not is_prime(q_):
+            q_ += 2
+        k = (top(tp, plen) // q_) | 1
+        k += k % 2                       # p = k*q + 1 with k even
+        while not is_prime(k * q_ + 1):
+            k += 2
+        p_ = k * q_ + 1
+        h = 2
+        while pow(h, (p_ - 1) // q_, p_) == 1:
+            h += 1
+        return p_, q_, pow(h, (p_ - 1) // q_, p_)
+    dsa_sets = [(23, 11, 4, 7)]
+    for (tq, qlen, tp, plen, x_) in ((0xFF, 4, 0x80, 16, 0x80000001), (0x80, 20, 0x01, 129, 5), (0x7F, 8, 0xFF, 128, (1 << 62) + 3)):
+        p_, q_, g_ = dsa_params(tq, qlen, tp, plen)
+        dsa_sets.append((p_, q_, g_, x_ % q_ or 2))
+    for (p_, q_, g_, x_) in dsa_sets:
+        comps = {"y": pow(g_, x_, p_), "g": g_, "p": p_, "q": q_, "x": x_}
+        for kw in ({"format": "DER", "pkcs8": True}, {"format": "DER", "pkcs8": False}, {"format": "PEM", "pkcs8": True}, {"format": "PEM", "pkcs8": False}):
+            jobs.append(("dsa", comps, kw, False))
+        for kw in ({"format": "DER"}, {"format": "PEM"}, {"format": "OpenSSH"}):
+            jobs.append(("dsa", comps, kw, True))
+    errs = pmap(job, jobs)
+    for kind, mod in (("rsa", rmod), ("dsa", dmod)):
+        wrong = ["%s %s key, %s: %s" % (kind.upper(), "public" if j[3] else "private", ", ".join("%s=%s" % kv for kv in sorted(j[2].items())), e)
+                 for j, e in zip(jobs, errs) if e and j[0] == kind]
+        cnt = sum(1 for j in jobs if j[0] == kind)
+        check.ob("K-pw", "K-pw|roundtrip.%s" % kind, not wrong, mod.path, repo.func(mod, "import_key").lineno,
+                 extracted=("%d of %d rows differ: " % (len(wrong), cnt) + "; ".join(wrong[:3])) if wrong else "%d (key, format) rows: import_key(export_key(k)) has the components of k; one trailing byte after a DER encoding is refused" % cnt,
+                 expected="export/import identity in every unencrypted format (PKCS#1, PKCS#8, SubjectPublicKeyInfo, OpenSSH; DER and PEM) at the encoding boundaries of the components")
+    check.count("roundtrip_rows", len(jobs))
